@@ -1,23 +1,37 @@
 //! C10: master-side messages carry exact timestamps and consistent identifiers.
+//!
+//! The handlers are run with `Message::serialize` replaced by a recording stub (harness/messages:
+//! `serialize_rec`), so the oracle looks at the *typed* message the handler hands to the serializer and
+//! at the buffer it passes; that `serialize` writes exactly the Clause 13 octets for any typed message
+//! is decided by the `c04_encode_*` harnesses (listed under C10 too). See DESIGN "emitting handlers".
 use super::common::*;
 use super::super::state::PortState;
 use super::super::*;
 use super::super::actions::TimestampContextInner;
-use crate::datastructures::messages::{DelayReqMessage, Header, Message as WireMessage, PtpVersion};
+use crate::datastructures::messages::verif_messages::{ser_body, ser_buf, ser_count, ser_header, ser_suffix_len};
+use crate::datastructures::messages::{DelayReqMessage, Header, MessageBody, PtpVersion};
+use crate::datastructures::common::WireTimestamp;
 use crate::verif_root::gen::*;
-use crate::verif_root::refcodec::*;
 
 /// time in 2^-16 ns (what origin timestamp + correctionField can express), floor
 fn t16(t: Time) -> i128 {
     (t.nanos().to_bits() >> 16) as i128
 }
-/// whole nanoseconds
 fn tns(t: Time) -> i128 {
     (t.nanos().to_bits() >> 32) as i128
 }
-/// timestamp field at `o` in nanoseconds
-fn ts_ns(f: &[u8], o: usize) -> i128 {
-    (be48(f, o) as i128) * 1_000_000_000 + be32(f, o + 6) as i128
+/// wire timestamp in whole nanoseconds - written in exactly the shape of the stub contract
+/// (`(s as u128) * 10^9 + n as u128`) so that CBMC shares the multiplier instead of proving two
+/// 128-bit multipliers equivalent
+fn w_ns(w: WireTimestamp) -> u128 {
+    (w.seconds as u128) * 1_000_000_000u128 + w.nanos as u128
+}
+fn whole_ns(t: Time) -> u128 {
+    t.nanos().to_bits() >> 32
+}
+/// sub-nanosecond part in 2^-16 ns
+fn sub16(t: Time) -> i128 {
+    ((t.nanos().to_bits() >> 16) & 0xffff) as i128
 }
 
 fn setup<'a>(state: &'a DepthCell) -> (RPort<'a>, PortCfg, u8) {
@@ -31,57 +45,57 @@ fn setup<'a>(state: &'a DepthCell) -> (RPort<'a>, PortCfg, u8) {
     (port, cfg, code)
 }
 
-/// bytes 0..34 of every emitted frame: port identity, instance domain / sdoId, versionPTP 2
-fn frame_header_ok(f: &[u8], len: usize, ty: u8, cfg: &PortCfg, st: &DepthCell, seq: u16) -> bool {
-    let h = ref_header(f);
+/// header fields every emitted message must carry: port identity, instance domain / sdoId, PTP 2.minor
+fn own_header_ok(h: &Header, cfg: &PortCfg, st: &DepthCell, seq: u16) -> bool {
     let d = &st.peek().default_ds;
-    h.message_type == ty
-        && h.version == 2
-        && h.minor_version == cfg.minor as u8
-        && h.message_length as usize == len
-        && len <= MAX_DATA_LEN
-        && h.domain == d.domain_number
-        && ((h.major_sdo_id as u16) << 8 | h.minor_sdo_id as u16) == u16::from(d.sdo_id)
-        && h.source_clock == OWN_CLOCK.0
-        && h.source_port == cfg.port_number
+    h.source_port_identity == cfg.identity()
+        && h.domain_number == d.domain_number
+        && h.sdo_id == d.sdo_id
+        && Some(h.version) == PtpVersion::new(2, cfg.minor as u8)
         && h.sequence_id == seq
-        && h.control == ref_control(ty)
+}
+
+/// the one frame of this action set is the prefix of the port's packet buffer that `serialize` filled
+fn sent_is_serialized(port: &RPort<'_>, len: usize, want_len: usize) -> bool {
+    let (addr, blen) = ser_buf();
+    ser_count() == 1 && len == want_len && want_len <= MAX_DATA_LEN && addr == port.packet_buffer.as_ptr() as usize && blen == MAX_DATA_LEN && ser_suffix_len() == 0
 }
 
 // @harness c10_send_sync
 // @props C10 C08 C03 C17 C12
 // @tier quick
-// @variant dl128_lists2
-// @timeout 1500
-// @mem 16
+// @variant lists2
 // @stubbing yes
-// @replay playback
-// @functions Port::handle_sync_timer, Port::send_sync, Message::sync, Message::serialize, SequenceIdGenerator::generate, Interval::as_core_duration
-// @bounds one step from an arbitrary port state (all five) with arbitrary sequence counters, instance data sets (domain, sdoId, identity attributes), port number, minor version; log sync interval concrete (0)
-// @assume MAX_DATA_LEN scaled 1024 -> 128 and list capacities 8 -> 2 in the scratch copy (frame is 44 octets; buffers only)
+// @timeout 1200
+// @functions Port::handle_sync_timer, Port::send_sync, Message::sync, SequenceIdGenerator::generate
+// @bounds one step from an arbitrary port state (all five) with arbitrary sequence counters, instance data sets (domain, sdoId, identity attributes), port number, minor version; log sync interval 0
+// @assume Message::serialize replaced by the recording stub (typed oracle); octet-level encoding of any typed Sync is decided by c04_encode_sync
+// @assume Interval::as_core_duration replaced by its integer equivalent (stubs.rs), validated for interval 0 by stub_interval_matches_real
 #[kani::proof]
 #[kani::unwind(9)]
+#[kani::stub(crate::datastructures::messages::Message::serialize, crate::datastructures::messages::verif_messages::serialize_rec)]
 #[kani::stub(crate::time::Interval::as_core_duration, crate::verif_root::stubs::as_core_duration_int)]
 fn c10_send_sync() {
     let state = any_state(0);
     let (mut port, cfg, code) = setup(&state);
     let seq0 = seq_peek(&port.sync_seq_ids);
     let before = snapshot(&port);
-    let mut f = [0u8; 64];
-    let (d, ctx, len) = drain_copy(port.handle_sync_timer(), &mut f);
+    let (d, ctx) = drain(port.handle_sync_timer());
     assert!(d.send_event <= 1 && !d.overflow, "C10: more than one event send in one action set");
     if code == ST_MASTER {
         assert!(d.n == 2 && d.send_event == 1 && d.reset_sync == 1, "C10/C12: master must emit a Sync and re-arm the sync timer");
         assert!(d.dur_sync == core::time::Duration::from_secs(1), "C12: sync timer re-armed with the configured interval");
-        assert!(len == 44 && frame_header_ok(&f, len, T_SYNC, &cfg, &state, seq0), "C10: Sync header");
-        assert!(f[6] & F0_TWO_STEP != 0, "two-step Sync announces a Follow_Up");
+        assert!(sent_is_serialized(&port, d.event_len, 44), "C10: the sent frame is not the serialized Sync");
+        let h = ser_header().unwrap();
+        assert!(own_header_ok(&h, &cfg, &state, seq0), "C10: Sync header (identity / domain / sdoId / version / sequence id)");
+        assert!(h.two_step_flag && h.correction_field.0.to_bits() == 0, "two-step Sync announces a Follow_Up");
+        assert!(matches!(ser_body(), Some(MessageBody::Sync(_))), "C08/C10: sync timer must emit a Sync");
         assert!(!d.event_link_local);
         assert!(matches!(ctx, Some(TimestampContext { inner: TimestampContextInner::Sync { id } }) if id == seq0), "C10: timestamp context carries the Sync's sequence id");
         assert!(seq_peek(&port.sync_seq_ids) == seq0.wrapping_add(1), "C10: Sync sequence ids increase by one modulo 2^16");
-        assert!(WireMessage::deserialize(&f[..44]).is_ok(), "C10: emitted Sync does not decode under the library's own parser");
         kani::cover!(seq0 == 65535, "sequence id wrap-around");
     } else {
-        assert!(d.none() && snapshot(&port) == before, "C08: Sync emitted / state changed by a non-master port");
+        assert!(d.none() && ser_count() == 0 && snapshot(&port) == before, "C08: Sync emitted / state changed by a non-master port");
     }
     assert!(port.instance_state.is_free());
     kani::cover!(code == ST_MASTER, "master emits");
@@ -92,15 +106,16 @@ fn c10_send_sync() {
 // @harness c10_follow_up
 // @props C10 C08 C03 C17
 // @tier quick
-// @variant dl128_lists2
+// @variant lists2
 // @stubbing yes
 // @timeout 1500
-// @mem 16
-// @functions Port::handle_send_timestamp, Port::handle_sync_timestamp, Message::follow_up, Time::subnano, From<Time> for WireTimestamp, Message::serialize
+// @functions Port::handle_send_timestamp, Port::handle_sync_timestamp, Message::follow_up, Time::subnano, From<Time> for WireTimestamp
 // @bounds one step from an arbitrary port state; transmit timestamp any Time in [0, 2^63 ns) with 2^-32 ns fraction; context id any u16
-// @assume Time::secs / Time::subsec_nanos replaced by their contract (stubs.rs); the contract itself is discharged by engine M under C16
+// @assume Time::secs / Time::subsec_nanos replaced by their contract (stubs.rs); the contract itself is discharged by engine M (c16_secs_contract_for_stubs)
+// @assume Message::serialize replaced by the recording stub; octet-level encoding decided by c04_encode_follow_up
 #[kani::proof]
 #[kani::unwind(9)]
+#[kani::stub(crate::datastructures::messages::Message::serialize, crate::datastructures::messages::verif_messages::serialize_rec)]
 #[kani::stub(crate::time::Time::secs, crate::verif_root::stubs::secs_contract)]
 #[kani::stub(crate::time::Time::subsec_nanos, crate::verif_root::stubs::subsec_contract)]
 fn c10_follow_up() {
@@ -109,78 +124,90 @@ fn c10_follow_up() {
     let id: u16 = kani::any();
     let t = any_time();
     let before = snapshot(&port);
-    let mut f = [0u8; 64];
     let ctx = TimestampContext { inner: TimestampContextInner::Sync { id } };
-    let (d, _, len) = drain_copy(port.handle_send_timestamp(ctx, t), &mut f);
+    let (d, _) = drain(port.handle_send_timestamp(ctx, t));
     assert!(d.send_event == 0 && !d.overflow);
     if code == ST_MASTER {
         assert!(d.n == 1 && d.send_general == 1, "C10: exactly one Follow_Up per reported Sync transmit timestamp");
-        assert!(len == 44 && frame_header_ok(&f, len, T_FOLLOW_UP, &cfg, &state, id), "C10: Follow_Up header / sequence id");
-        let corr = ref_header(&f).correction as i128;
-        assert!(ts_ns(&f, O_TS) * 65536 + corr == t16(t), "C10: preciseOriginTimestamp + correctionField != transmit timestamp to 2^-16 ns");
-        assert!(be32(&f, O_TS + 6) < 1_000_000_000, "nanoseconds field must be below 10^9");
-        assert!(corr >= 0 && corr < 65536, "sub-nanosecond remainder only");
+        assert!(sent_is_serialized(&port, d.general_len, 44), "C10: the sent frame is not the serialized Follow_Up");
+        let h = ser_header().unwrap();
+        assert!(own_header_ok(&h, &cfg, &state, id), "C10: Follow_Up header / sequence id of the Sync");
+        match ser_body() {
+            Some(MessageBody::FollowUp(m)) => {
+                let corr = h.correction_field.0.to_bits() as i128;
+                // (seconds*10^9 + nanos) * 2^16 + correction == floor(t * 2^16), split into its two digits
+                assert!(w_ns(m.precise_origin_timestamp) == whole_ns(t) && corr == sub16(t), "C10: preciseOriginTimestamp + correctionField != transmit timestamp to 2^-16 ns");
+                assert!(m.precise_origin_timestamp.nanos < 1_000_000_000, "nanoseconds field must be below 10^9");
+                assert!(m.precise_origin_timestamp.seconds < (1 << 48));
+                assert!(corr >= 0 && corr < 65536, "sub-nanosecond remainder only");
+            }
+            _ => panic!("C08/C10: a Sync transmit timestamp must produce a Follow_Up"),
+        }
         assert!(!d.general_link_local);
-        assert!(WireMessage::deserialize(&f[..44]).is_ok(), "C10: emitted Follow_Up does not decode");
     } else {
-        assert!(d.none(), "C08: Follow_Up emitted by a non-master port");
+        assert!(d.none() && ser_count() == 0, "C08: Follow_Up emitted by a non-master port");
     }
     assert!(snapshot(&port) == before, "reporting a Sync transmit timestamp changes no state");
     assert!(port.instance_state.is_free());
     kani::cover!(code == ST_MASTER, "master emits");
+    kani::cover!(code != ST_MASTER, "non-master silent");
     core::mem::forget(port);
 }
 
 // @harness c10_delay_resp
 // @props C10 C08 C03 C17
 // @tier quick
-// @variant dl128_lists2
+// @variant lists2
 // @stubbing yes
 // @timeout 1500
-// @mem 16
-// @functions Port::handle_delay_req, Message::delay_resp, Time::subnano, From<Time> for WireTimestamp, Message::serialize
-// @bounds one step from an arbitrary port state; request header fully symbolic (correction any i64, identity, sequence id, flags) with the instance's domain/sdoId (what the byte gate lets through); receive time any Time in [0, 2^63 ns)
-// @assume Time::secs / Time::subsec_nanos replaced by their contract (stubs.rs), discharged by engine M under C16
+// @functions Port::handle_delay_req, Message::delay_resp, Time::subnano, From<Time> for WireTimestamp
+// @bounds one step from an arbitrary port state; request header fully symbolic (correction any i64, identity, sequence id, flags) with the instance's domain/sdoId and the port's minor version (what the byte gate lets through); receive time any Time in [0, 2^63 ns)
+// @assume Time::secs / Time::subsec_nanos replaced by their contract (stubs.rs), discharged by engine M
+// @assume Message::serialize replaced by the recording stub; octet-level encoding decided by c04_encode_delay_resp
 #[kani::proof]
 #[kani::unwind(9)]
+#[kani::stub(crate::datastructures::messages::Message::serialize, crate::datastructures::messages::verif_messages::serialize_rec)]
 #[kani::stub(crate::time::Time::secs, crate::verif_root::stubs::secs_contract)]
 #[kani::stub(crate::time::Time::subsec_nanos, crate::verif_root::stubs::subsec_contract)]
 fn c10_delay_resp() {
     let state = any_state(0);
     let (mut port, cfg, code) = setup(&state);
-    let mut h = any_header();
-    h.domain_number = state.peek().default_ds.domain_number;
-    h.sdo_id = state.peek().default_ds.sdo_id;
-    h.version = PtpVersion::new(2, cfg.minor as u8).unwrap();
+    let mut rh = any_header();
+    rh.domain_number = state.peek().default_ds.domain_number;
+    rh.sdo_id = state.peek().default_ds.sdo_id;
+    rh.version = PtpVersion::new(2, cfg.minor as u8).unwrap();
     let msg = DelayReqMessage { origin_timestamp: any_wire_timestamp() };
     let t = any_time();
     let before = snapshot(&port);
-    let mut f = [0u8; 64];
-    let (d, _, len) = drain_copy(port.handle_delay_req(h, msg, t), &mut f);
+    let (d, _) = drain(port.handle_delay_req(rh, msg, t));
     assert!(d.send_event == 0 && !d.overflow);
     if code == ST_MASTER {
         assert!(d.n == 1 && d.send_general == 1, "C10: each Delay_Req is answered with exactly one Delay_Resp");
-        assert!(len == 54 && frame_header_ok(&f, len, T_DELAY_RESP, &cfg, &state, h.sequence_id), "C10: Delay_Resp header / echoed sequence id");
-        assert!(id8(&f, O_PORT_ID) == h.source_port_identity.clock_identity.0 && be16(&f, O_PORT_ID + 8) == h.source_port_identity.port_number,
-            "C10: requestingPortIdentity must echo the requester");
-        let creq = h.correction_field.0.to_bits() as i128;
-        let corr = ref_header(&f).correction as i128;
-        let want = t16(t) + creq;
-        let have = ts_ns(&f, O_TS) * 65536 + corr;
-        if creq + (t16(t) & 0xffff) <= i64::MAX as i128 {
-            assert!(have == want, "C10: receiveTimestamp + correctionField != receive time + request correction to 2^-16 ns");
-        } else {
-            // the sum is not representable (the request's correction is the 'too big' sentinel range): saturate
-            assert!(corr == i64::MAX as i128, "C10: unrepresentable correction must saturate");
+        assert!(sent_is_serialized(&port, d.general_len, 54), "C10: the sent frame is not the serialized Delay_Resp");
+        let h = ser_header().unwrap();
+        assert!(own_header_ok(&h, &cfg, &state, rh.sequence_id), "C10: Delay_Resp header / echoed sequence id");
+        match ser_body() {
+            Some(MessageBody::DelayResp(m)) => {
+                assert!(m.requesting_port_identity == rh.source_port_identity, "C10: requestingPortIdentity must echo the requester");
+                let creq = rh.correction_field.0.to_bits() as i128;
+                let corr = h.correction_field.0.to_bits() as i128;
+                assert!(w_ns(m.receive_timestamp) == whole_ns(t), "C10: receiveTimestamp != receive time to the nanosecond");
+                if creq + sub16(t) <= i64::MAX as i128 {
+                    assert!(corr == creq + sub16(t), "C10: receiveTimestamp + correctionField != receive time + request correction to 2^-16 ns");
+                } else {
+                    // the sum is not representable (the request's correction is in the 'too big' sentinel range): saturate
+                    assert!(corr == i64::MAX as i128, "C10: unrepresentable correction must saturate");
+                }
+                assert!(m.receive_timestamp.nanos < 1_000_000_000 && m.receive_timestamp.seconds < (1 << 48));
+                kani::cover!(creq < 0, "negative request correction");
+                kani::cover!(creq > (1i128 << 62), "huge request correction");
+            }
+            _ => panic!("C08/C10: a Delay_Req must be answered with a Delay_Resp"),
         }
-        assert!(be32(&f, O_TS + 6) < 1_000_000_000);
-        assert!(f[33] as i8 == cfg.log_interval, "logMessageInterval = configured minimum delay request interval");
-        assert!(f[6] & F0_TWO_STEP == 0);
-        assert!(WireMessage::deserialize(&f[..54]).is_ok(), "C10: emitted Delay_Resp does not decode");
-        kani::cover!(creq < 0, "negative request correction");
-        kani::cover!(creq > (1i128 << 62), "huge request correction");
+        assert!(h.log_message_interval == cfg.log_interval, "logMessageInterval = configured minimum delay request interval");
+        assert!(!h.two_step_flag);
     } else {
-        assert!(d.none(), "C08: Delay_Resp emitted by a non-master port");
+        assert!(d.none() && ser_count() == 0, "C08: Delay_Resp emitted by a non-master port");
     }
     assert!(snapshot(&port) == before, "answering a Delay_Req changes no state");
     assert!(port.instance_state.is_free());
@@ -191,36 +218,41 @@ fn c10_delay_resp() {
 // @harness c10_pdelay_resp
 // @props C10 C14 C03 C17
 // @tier quick
-// @variant dl128_lists2
+// @variant lists2
 // @stubbing yes
 // @timeout 1500
-// @mem 16
-// @functions Port::handle_pdelay_req, Message::pdelay_resp, From<Time> for WireTimestamp, Message::serialize
+// @functions Port::handle_pdelay_req, Message::pdelay_resp, From<Time> for WireTimestamp
 // @bounds one step from an arbitrary port state; request header fully symbolic; receive time any Time in [0, 2^63 ns)
-// @assume Time::secs / Time::subsec_nanos replaced by their contract (stubs.rs), discharged by engine M under C16
+// @assume Time::secs / Time::subsec_nanos replaced by their contract (stubs.rs), discharged by engine M
+// @assume Message::serialize replaced by the recording stub; octet-level encoding decided by c04_encode_pdelay_resp
 #[kani::proof]
 #[kani::unwind(9)]
+#[kani::stub(crate::datastructures::messages::Message::serialize, crate::datastructures::messages::verif_messages::serialize_rec)]
 #[kani::stub(crate::time::Time::secs, crate::verif_root::stubs::secs_contract)]
 #[kani::stub(crate::time::Time::subsec_nanos, crate::verif_root::stubs::subsec_contract)]
 fn c10_pdelay_resp() {
     let state = any_state(0);
     let (mut port, cfg, _code) = setup(&state);
-    let h = any_header();
+    let rh = any_header();
     let t = any_time();
     let before = snapshot(&port);
-    let mut f = [0u8; 64];
-    let (d, ctx, len) = drain_copy(port.handle_pdelay_req(h, t), &mut f);
+    let (d, ctx) = drain(port.handle_pdelay_req(rh, t));
     assert!(d.n == 1 && d.send_event == 1 && !d.overflow, "C10: each Pdelay_Req is answered with exactly one Pdelay_Resp");
-    assert!(len == 54 && frame_header_ok(&f, len, T_PDELAY_RESP, &cfg, &state, h.sequence_id), "C10: Pdelay_Resp header / echoed sequence id");
-    assert!(id8(&f, O_PORT_ID) == h.source_port_identity.clock_identity.0 && be16(&f, O_PORT_ID + 8) == h.source_port_identity.port_number,
-        "C10: requestingPortIdentity must echo the requester");
-    assert!(ts_ns(&f, O_TS) == tns(t), "C10: requestReceiptTimestamp != receive time to the nanosecond");
-    assert!(be32(&f, O_TS + 6) < 1_000_000_000);
-    assert!(ref_header(&f).correction == h.correction_field.0.to_bits(), "correction of the request is carried over");
+    assert!(sent_is_serialized(&port, d.event_len, 54), "C10: the sent frame is not the serialized Pdelay_Resp");
+    let h = ser_header().unwrap();
+    assert!(own_header_ok(&h, &cfg, &state, rh.sequence_id), "C10: Pdelay_Resp header / echoed sequence id");
+    match ser_body() {
+        Some(MessageBody::PDelayResp(m)) => {
+            assert!(m.requesting_port_identity == rh.source_port_identity, "C10: requestingPortIdentity must echo the requester");
+            assert!(w_ns(m.request_receive_timestamp) == whole_ns(t), "C10: requestReceiptTimestamp != receive time to the nanosecond");
+            assert!(m.request_receive_timestamp.nanos < 1_000_000_000);
+        }
+        _ => panic!("C10: a Pdelay_Req must be answered with a Pdelay_Resp"),
+    }
+    assert!(h.correction_field == rh.correction_field, "correction of the request is carried over");
     assert!(d.event_link_local, "peer delay messages are link local");
     assert!(matches!(ctx, Some(TimestampContext { inner: TimestampContextInner::PDelayResp { id, requestor_identity } })
-        if id == h.sequence_id && requestor_identity == h.source_port_identity), "C10: context for the follow-up");
-    assert!(WireMessage::deserialize(&f[..54]).is_ok(), "C10: emitted Pdelay_Resp does not decode");
+        if id == rh.sequence_id && requestor_identity == rh.source_port_identity), "C10: context for the follow-up");
     assert!(snapshot(&port) == before);
     assert!(port.instance_state.is_free());
     kani::cover!(true, "responder answers");
@@ -230,15 +262,16 @@ fn c10_pdelay_resp() {
 // @harness c10_pdelay_resp_follow_up
 // @props C10 C14 C03 C17
 // @tier quick
-// @variant dl128_lists2
+// @variant lists2
 // @stubbing yes
 // @timeout 1500
-// @mem 16
-// @functions Port::handle_send_timestamp, Port::handle_pdelay_response_timestamp, Message::pdelay_resp_follow_up, From<Time> for WireTimestamp, Message::serialize
+// @functions Port::handle_send_timestamp, Port::handle_pdelay_response_timestamp, Message::pdelay_resp_follow_up, From<Time> for WireTimestamp
 // @bounds one step from an arbitrary port state; context id and requester identity symbolic; transmit time any Time in [0, 2^63 ns)
-// @assume Time::secs / Time::subsec_nanos replaced by their contract (stubs.rs), discharged by engine M under C16
+// @assume Time::secs / Time::subsec_nanos replaced by their contract (stubs.rs), discharged by engine M
+// @assume Message::serialize replaced by the recording stub; octet-level encoding decided by c04_encode_pdelay_resp_follow_up
 #[kani::proof]
 #[kani::unwind(9)]
+#[kani::stub(crate::datastructures::messages::Message::serialize, crate::datastructures::messages::verif_messages::serialize_rec)]
 #[kani::stub(crate::time::Time::secs, crate::verif_root::stubs::secs_contract)]
 #[kani::stub(crate::time::Time::subsec_nanos, crate::verif_root::stubs::subsec_contract)]
 fn c10_pdelay_resp_follow_up() {
@@ -248,17 +281,21 @@ fn c10_pdelay_resp_follow_up() {
     let requestor = any_port_identity();
     let t = any_time();
     let before = snapshot(&port);
-    let mut f = [0u8; 64];
     let ctx = TimestampContext { inner: TimestampContextInner::PDelayResp { id, requestor_identity: requestor } };
-    let (d, _, len) = drain_copy(port.handle_send_timestamp(ctx, t), &mut f);
+    let (d, _) = drain(port.handle_send_timestamp(ctx, t));
     assert!(d.n == 1 && d.send_general == 1 && d.send_event == 0 && !d.overflow, "C10: exactly one Pdelay_Resp_Follow_Up per response transmit timestamp");
-    assert!(len == 54 && frame_header_ok(&f, len, T_PDELAY_RESP_FOLLOW_UP, &cfg, &state, id), "C10: follow-up header / sequence id");
-    assert!(id8(&f, O_PORT_ID) == requestor.clock_identity.0 && be16(&f, O_PORT_ID + 8) == requestor.port_number,
-        "C10: requestingPortIdentity must echo the requester");
-    assert!(ts_ns(&f, O_TS) == tns(t), "C10: responseOriginTimestamp != response transmit time to the nanosecond");
-    assert!(be32(&f, O_TS + 6) < 1_000_000_000);
+    assert!(sent_is_serialized(&port, d.general_len, 54), "C10: the sent frame is not the serialized follow-up");
+    let h = ser_header().unwrap();
+    assert!(own_header_ok(&h, &cfg, &state, id), "C10: follow-up header / sequence id");
+    match ser_body() {
+        Some(MessageBody::PDelayRespFollowUp(m)) => {
+            assert!(m.requesting_port_identity == requestor, "C10: requestingPortIdentity must echo the requester");
+            assert!(w_ns(m.response_origin_timestamp) == whole_ns(t), "C10: responseOriginTimestamp != response transmit time to the nanosecond");
+            assert!(m.response_origin_timestamp.nanos < 1_000_000_000);
+        }
+        _ => panic!("C10: a Pdelay_Resp transmit timestamp must produce a Pdelay_Resp_Follow_Up"),
+    }
     assert!(d.general_link_local);
-    assert!(WireMessage::deserialize(&f[..54]).is_ok(), "C10: emitted Pdelay_Resp_Follow_Up does not decode");
     assert!(snapshot(&port) == before);
     assert!(port.instance_state.is_free());
     kani::cover!(true, "responder follow-up");
